@@ -94,7 +94,7 @@ def validate_traces(ctx, trace_files, canary=True, tag="traces"):
             accepted.add(json.loads(line)["accept"])
     for c in canaries:
         if c in accepted:
-            raise MachineryFault("canary trace %s was accepted by LifecycleTrace (validator is vacuous)" % c)
+            ctx.defer_fault("canary trace %s was accepted by LifecycleTrace (validator is vacuous)" % c)
     return ids, accepted, res
 
 
